@@ -247,7 +247,9 @@ def c14_mc_configs(tier):
     ]
     if not q:
         cfgs += [
-            c14_config({"t1": "c1", "t2": "c1", "t3": "c2", "t4": "c2"}, {"t1": [0], "t2": [1], "t3": [1], "t4": [0]}, 4, 2, max_grow=2, view=True, emit=False),
+            # two clients with two goroutines each (5 M distinct states with a fixed head; with a growing head the
+            # search did not finish in an hour)
+            c14_config({"t1": "c1", "t2": "c1", "t3": "c2", "t4": "c2"}, {"t1": [0], "t2": [1], "t3": [1], "t4": [0]}, 2, 2, max_grow=0, view=True, emit=False),
             c14_config({"t1": "c1", "t2": "c1", "t3": "c1"}, {"t1": [0], "t2": [1], "t3": [0]}, 3, 1, max_grow=2, view=True, emit=False),
             c14_config({"t1": "c1", "t2": "c2", "t3": "c3"}, {"t1": [0], "t2": [1], "t3": [2]}, 3, 1, max_grow=2, view=True, emit=False),
         ]
